@@ -340,7 +340,13 @@ func finish(P *Program, verif, prop, tier string, seed int, results []*HarnessRe
 					}
 				}
 			case "known":
-				if o.Result == "fail" || o.Result == "panic" {
+				hit := false
+				for _, l := range o.Known {
+					if l == p.v.label {
+						hit = true
+					}
+				}
+				if o.Result == "fail" || o.Result == "panic" || hit {
 					validated++
 					if !knownPrinted[p.v.known] {
 						knownPrinted[p.v.known] = true
